@@ -16,6 +16,7 @@ import (
 	"fmt"
 	"io"
 	"os"
+	"regexp"
 	"strings"
 
 	ipld "github.com/ipld/go-ipld-prime"
@@ -40,6 +41,10 @@ import (
 	"verif/scen/bindhist"
 	"verif/sim"
 )
+
+// dagJSONBytes matches a bytes value as the dag-json encoder writes it (compact, unpadded). Inside a
+// JSON string the quotes would be escaped, and the generator never makes the reserved map shape.
+var dagJSONBytes = regexp.MustCompile(`\{"/":\{"bytes":"([A-Za-z0-9+/]*)"\}\}`)
 
 type S struct{}
 
@@ -380,8 +385,23 @@ func (w *world) spawn(k int) {
 			b := 12
 			vj = gen.Value(t, gen.DagJson, w.cids, &b, 0)
 			nj, _ := w.buildBasic(vj, 0)
-			if err := dagjson.Encode(nj, &buf); err == nil && dagjson.Decode(nb, &buf) == nil {
-				w.add(nb.Build(), vj.Canon(model.SortLexical), "dagjson-decoder", nb)
+			if err := dagjson.Encode(nj, &buf); err == nil {
+				doc := buf.Bytes()
+				if len(doc)%2 == 1 {
+					// the same document with its bytes values in the padded base64 form other writers
+					// produce and the decoder accepts: it denotes the same value
+					doc = dagJSONBytes.ReplaceAllFunc(doc, func(m []byte) []byte {
+						b64 := dagJSONBytes.FindSubmatch(m)[1]
+						if len(b64)%4 == 0 {
+							return m
+						}
+						w.st.Inc("probe.dagjson_bytes_repadded")
+						return []byte(`{"/":{"bytes":"` + string(b64) + strings.Repeat("=", 4-len(b64)%4) + `"}}`)
+					})
+				}
+				if dagjson.Decode(nb, bytes.NewReader(doc)) == nil {
+					w.add(nb.Build(), vj.Canon(model.SortLexical), "dagjson-decoder", nb)
+				}
 			}
 			return
 		}
